@@ -9,6 +9,8 @@ import (
 	"encoding/binary"
 	"encoding/hex"
 	"fmt"
+	"os"
+	"path/filepath"
 	"reflect"
 	"runtime"
 	"sort"
@@ -1178,6 +1180,56 @@ func runCase(r *hx.Run, sub uint64, ops []string) {
 	r.Sample(r.CaseLines())
 }
 
+// dry executes a case on a fresh world without emitting protocol lines and reports which property oracles failed.
+type dryRunner struct{ r *hx.Run }
+
+func newDry(outDir string) *dryRunner {
+	d := filepath.Join(outDir, "shrink")
+	_ = os.MkdirAll(d, 0o755)
+
+	return &dryRunner{r: &hx.Run{Hist: map[string]int{}, OutDir: d, Extra: map[string]any{}}}
+}
+
+func (d *dryRunner) fails(ops []string) map[string]bool {
+	before := map[string]int{}
+	for k, v := range d.r.Hist {
+		before[k] = v
+	}
+	w := newWorld(d.r)
+	for _, op := range ops {
+		if strings.HasPrefix(op, "chist") {
+			w.execHist(d.r, op)
+		} else {
+			w.exec(d.r, op)
+		}
+	}
+	out := map[string]bool{}
+	for k, v := range d.r.Hist {
+		if strings.HasPrefix(k, "finding:") && v > before[k] {
+			out[strings.TrimPrefix(k, "finding:")] = true
+		}
+	}
+
+	return out
+}
+
+// shrink removes requests (greedily, to a fixpoint) as long as the oracle `want` still fails: the failing input that is
+// reported is a short one. A restart that follows a crash is removed together with it or kept.
+func (d *dryRunner) shrink(ops []string, want string) []string {
+	cur := append([]string(nil), ops...)
+	for changed, rounds := true, 0; changed && rounds < 8; rounds++ {
+		changed = false
+		for i := len(cur) - 1; i >= 0; i-- {
+			cand := append(append([]string(nil), cur[:i]...), cur[i+1:]...)
+			if len(cand) > 0 && d.fails(cand)[want] {
+				cur, changed = cand, true
+			}
+		}
+	}
+
+	return cur
+}
+
 func main() {
 	r := hx.Start()
 	r.Rule = "random histories of new/next/release/crash(idle|read|write|relwrite)/fnext(get|set)/frelease (injected store errors)/mark/par/parrel (Next racing Release, slow store writes)/chist (recorded concurrent history of Next racing Release + restart, judged by the Lean trace predicate of C07_concurrent_*) over intervals {1,2,3,5,2^32}; every fifth case at the end of the number space (intervals up to 2^64-1: leases cut off at MaxUint64, exhaustion errors); the sequence lives in a sub-view of a non-root mapdb view, 'sibling' opens and writes sibling views, 'parfr' runs concurrent Next with foreign readers of another key on the same handle; " +
@@ -1219,13 +1271,33 @@ func main() {
 		runCase(r, 0, c)
 	}
 	n := 5000 * r.Scale
+	dry := newDry(r.OutDir)
+	shrunk := map[string]int{}
 	for i := 0; i < n; i++ {
 		rng, sub := r.Rng.Fork()
+		var ops []string
 		if i%5 == 4 {
-			runCase(r, sub, genExtreme(rng, 25))
+			ops = genExtreme(rng, 25)
 		} else {
-			runCase(r, sub, genCase(rng, 30))
+			ops = genCase(rng, 30)
 		}
+		// search quality: a case on which a property oracle fails is first minimised (same oracle still failing) and the
+		// short history is run - and reported - before the long one
+		if failed := dry.fails(ops); len(failed) > 0 {
+			names := make([]string, 0, len(failed))
+			for k := range failed {
+				names = append(names, k)
+			}
+			sort.Strings(names)
+			for _, k := range names {
+				if shrunk[k] < 3 {
+					shrunk[k]++
+					r.Count("shrunk")
+					runCase(r, sub, dry.shrink(ops, k))
+				}
+			}
+		}
+		runCase(r, sub, ops)
 	}
 	r.Finish()
 }
